@@ -377,6 +377,24 @@ class Model:
             return f'super().{f.attr}'
         return None
 
+    def effective_arg(self, fi, call, pname):
+        """The expression a call binds to parameter `pname` of its (resolved, package) callee: the argument written at the call,
+        else the default in the callee's signature.  Ellipsis when the call spreads * / ** or the callee is unknown."""
+        q = self.resolve_call(fi, call)
+        target = self.functions.get(q)
+        if target is None or any(isinstance(a, ast.Starred) for a in call.args) or any(k.arg is None for k in call.keywords):
+            return Ellipsis
+        for k in call.keywords:
+            if k.arg == pname:
+                return k.value
+        a = target.node.args
+        pos = [x.arg for x in a.posonlyargs + a.args]
+        if target.cls is not None and pos and pos[0] in ('self', 'cls') and not any(ast.unparse(d) == 'staticmethod' for d in target.decorators):
+            pos = pos[1:]
+        if pname in pos and pos.index(pname) < len(call.args):
+            return call.args[pos.index(pname)]
+        return target.param_default(pname)
+
     def mro(self, qualname, _seen=None):
         """Linearised (depth-first, de-duplicated keeping last) list of known + external base names."""
         _seen = _seen or set()
